@@ -374,6 +374,7 @@ seq_run_dadd(char *out, size_t osz, const char *zopt, const char *zone, const ch
 		int nul = open("/dev/null", O_RDWR);
 		struct itimerval z = {{0, 0}, {0, 0}};
 		setitimer(ITIMER_REAL, &z, NULL);
+		setitimer(ITIMER_VIRTUAL, &z, NULL);
 		signal(SIGALRM, SIG_DFL);
 		dup2(nul, 0), dup2(pfd[1], 1), dup2(nul, 2);
 		close(pfd[0]), close(pfd[1]);
